@@ -288,6 +288,9 @@ func eval(in []*big.Int) ([]*big.Int, []*big.Int) {
 	case 4:
 		_, out := evalHistory(in)
 		return annotate(in, out), out
+	case 5:
+		_, out := evalLoop(in)
+		return annotate(in, out), out
 	}
 	return in, nil
 }
@@ -421,10 +424,20 @@ func gen(r *hx.Rand) [][]*big.Int {
 	prop := os.Getenv("VERIF_PROP")
 	for c := 0; c < n; c++ {
 		var b hx.B
+		if prop == "C08" && c < 2 {
+			// the two witnesses of c08_pool_churn_refuted / c08_pool_churn_dual_stack_refuted (coq/IpamLoopProofs.v w1, w2)
+			if c == 0 {
+				b.I(5, 0, 3, 3, 3, 2, 2, 2, 0, 1, 0, 10)
+			} else {
+				b.I(5, 1, 3, 2, 2, 2, 2, 1, 0, 2, 0, 10)
+			}
+			out = append(out, b.L)
+			continue
+		}
 		kind := []int{1, 2, 3, 3}[r.Intn(4)]
 		switch prop {
 		case "C08":
-			kind = []int{1, 1, 2, 4}[r.Intn(4)]
+			kind = []int{1, 1, 2, 4, 5}[r.Intn(5)]
 		case "C02":
 			kind = []int{3, 3, 2, 4}[r.Intn(4)]
 		case "C03":
@@ -519,6 +532,25 @@ func gen(r *hx.Rand) [][]*big.Int {
 			}
 		case 4:
 			b.L = append(b.L, genHistory(r)...)
+		case 5:
+			// the pool loop on a node without pods: small limits, min <= max, 0..3 interfaces with distinct address counts
+			per := 2 + r.Intn(4)
+			mn := r.Intn(4)
+			mx := mn + r.Intn(3)
+			fs := 1 + r.Intn(3)
+			dual := r.Chance(1, 3)
+			b.I(5).Bool(dual).I(per, mn, mx, fs)
+			ne := r.Intn(fs + 1)
+			b.I(ne)
+			for i := 0; i < ne; i++ {
+				n4 := 1 + (i+r.Intn(2))%per
+				n6 := 0
+				if dual {
+					n6 = r.Intn(per + 1)
+				}
+				b.I(n4, n6)
+			}
+			b.I(8 + r.Intn(5))
 		}
 		out = append(out, b.L)
 	}
